@@ -230,6 +230,18 @@ def run(ctx):
                 for lo in range(1, len(bb), 150):
                     items2.append(("hdr=%s body=uses-announced-boundary" % hname, "header-line", hl, bb, "sweep1:%d:%d" % (lo, min(len(bb), lo + 150))))
         hgood = [b"Content-Type: multipart/byteranges; boundary=" + BD.encode() + b"\r\n"]
+        # every pair of cuts of the well-formed response: carried-over part headers across three invocations (the buffers the
+        # parser merges and keeps are where overlapping copies and stale pointers live)
+        if ncases == 0 or thorough:
+            for lo in range(1, len(good), 40):
+                items2.append(("hdr=good body=well-formed", "two-cuts", hgood, good, "sweep2:%d:%d" % (lo, min(len(good), lo + 40))))
+            # ... and with a second part header much longer than everything in front of it (legal: extra part headers), first
+            # cut anywhere in the first part header
+            rl = Resp(b, rr)
+            rl.parts[1]["h1"] = b"Content-Type: application/octet-stream\r\nX-Padding: " + b"p" * 300 + b"\r\n"
+            longb = rl.render()
+            for lo in range(1, 130, 10):
+                items2.append(("hdr=good body=long-second-part-header", "two-cuts", hgood, longb, "sweep2:%d:%d" % (lo, lo + 10)))
         menu = deviations(len(rr), rr, len(b))
         devs = [(d,) for d in menu] + (list(itertools.combinations(menu, 2)) if thorough else
                                       [(a, c) for a, c in itertools.combinations(menu, 2) if a[0].endswith("[0]") and (c[0].endswith("[1]") or "[" not in c[0])])
